@@ -18,7 +18,7 @@ META = {
     "assumptions": [
         "scalar arithmetic over the reals; pow/log/sqrt uninterpreted with true axiom instances",
         "nominal yields, normsys factors, uncertainties > 0 (placeholders), histosys lo/hi unconstrained reals, clip thresholds >= 0",
-        "the interpolation function applied to one (alpha, lo, nom, hi) is the real interpolator class called on that triple in isolation (its formula is C03's subject); C01 decides which parameter and which data reach which (sample, bin) cell",
+        "the interpolation function applied to one (alpha, lo, nom, hi) is the real interpolator class called on that triple in isolation (tied to the published formula for all alpha by the 'interp' items, which run C03's formula obligations); C01 decides which parameter and which data reach which (sample, bin) cell",
         "parameter identity by name through config.par_slice (slice arithmetic itself is C12)",
         "real numpy array semantics for masks / gather fields / einsum on object arrays",
     ],
@@ -45,6 +45,10 @@ def items(tier, seed):
         full = tier == "thorough" and i < ncore
         for st in common.settings_for(i, tier, full=full):
             out.append((i, sh["tag"], st))
+    # the interpolation functions the cell oracle borrows from the real interpolators (on isolated triples) are themselves
+    # tied to their published formulas for all alpha: C03's formula obligations, run here so that C01 is self-contained
+    for code in ("code0", "code1", "code2", "code4", "code4p"):
+        out.append(("interp", code, None))
     return out
 
 
@@ -173,6 +177,9 @@ def _layered(env, tb, spec, model, rows, batch, hcode, ncode, cs, cb, absent):
 
 
 def harness_for(item):
+    if item[0] == "interp":
+        from . import c03
+        return c03.harness_for(("formula", item[1], 1, 1, 1, 1))
     idx, tag, (hcode, ncode, clip, batch) = item
 
     def h(env):
